@@ -195,3 +195,11 @@ func vTokens(s string) (ints []int, texts []string) {
 	texts = append(texts, cur)
 	return
 }
+
+// vTag names an object so that logged calls of stubbed methods on it can be counted;
+// vCalls returns how often the stubbed function was called. Natively the stubbed functions
+// run for real, so native counting is done by the harness' own writer objects instead.
+var vCallLog = map[string]int{}
+
+func vTag(p interface{}, name string) {}
+func vCalls(name string) int      { return vCallLog[name] }
